@@ -140,10 +140,24 @@ func runProperty(repo, prop string, timeoutSec, seed int, smtDir string) (*runRe
 	for _, e := range prog.LoadErrors {
 		rr.bindErrs = append(rr.bindErrs, "load: "+e)
 	}
+	// A modular proof of a function relies on the contracts of the functions it calls, so the check of a property
+	// covers the functions that name it in `props` AND, transitively, every contracted /repo function whose contract
+	// their proofs use (calleesUsed): a change that breaks such a callee's contract is reported under the property.
+	done := map[string]bool{}
+	var work []*Contract
 	for _, c := range prog.Contracts {
 		if prop != "" && !contains(c.Props, prop) {
 			continue
 		}
+		work = append(work, c)
+	}
+	for len(work) > 0 {
+		c := work[0]
+		work = work[1:]
+		if done[c.Key] {
+			continue
+		}
+		done[c.Key] = true
 		if c.BindErr != "" {
 			rr.bindErrs = append(rr.bindErrs, c.Key+"#contract-binds: "+c.BindErr)
 			continue
@@ -153,12 +167,23 @@ func runProperty(repo, prop string, timeoutSec, seed int, smtDir string) (*runRe
 		}
 		r := VerifyFunc(rr.world, prog, c.Fn)
 		rr.results = append(rr.results, r)
+		props := c.Props
+		if prop != "" && !contains(props, prop) {
+			props = append(append([]string(nil), props...), prop)
+		}
 		for _, o := range r.Obls {
-			o.Props = c.Props
+			o.Props = props
 		}
 		rr.obls = append(rr.obls, r.Obls...)
 		for _, e := range r.BindErrors {
 			rr.bindErrs = append(rr.bindErrs, c.Key+"#contract-binds: "+e)
+		}
+		if prop != "" {
+			for _, k := range calleeKeys(r) {
+				if fi, ok := prog.Funcs[k]; ok && fi.Contr != nil && !done[k] {
+					work = append(work, fi.Contr)
+				}
+			}
 		}
 	}
 	t0 := time.Now()
@@ -173,9 +198,132 @@ func runProperty(repo, prop string, timeoutSec, seed int, smtDir string) (*runRe
 	if len(retry) > 0 && len(retry) <= 40 {
 		SolveAll(rr.world, retry, smtDir, timeoutSec*2, seed+7, 16)
 	}
+	dropAuxiliary(rr, smtDir, timeoutSec, seed)
 	rr.solveSec = time.Since(t0).Seconds()
 	rr.wall = time.Since(start).Seconds()
 	return rr, nil
+}
+
+// calleeKeys: keys of the contracted /repo functions whose contracts the proof of r used.
+func calleeKeys(r *FuncResult) []string {
+	var out []string
+	for _, c := range r.Callees {
+		k := c
+		if i := strings.Index(k, " ("); i >= 0 {
+			if strings.Contains(k[i:], "no contract") || strings.Contains(k[i:], "ASSUMED") {
+				continue
+			}
+			k = k[:i]
+		}
+		out = append(out, k)
+	}
+	return out
+}
+
+var invOblRe = regexp.MustCompile(`#F\.inv\[loop(\d+),(\d+)\]\.(entry|preserved)`)
+
+// dropAuxiliary: loop invariants, loop assumptions and hints are proof AIDS, not claims. When one of them no longer
+// binds (a local it mentions is gone) or is no longer established by a restructured loop, the function is verified
+// again WITHOUT those clauses (the engine-derived iteration summaries still apply). If every obligation of that
+// second attempt is discharged, the function is proved - by a proof that does not use the clauses - and the second
+// attempt replaces the first; the dropped clauses are listed in the notes. Otherwise the first attempt stands and
+// its failures are reported. Dropping assumptions and invariants only removes facts, so this cannot accept anything
+// that a proof does not support; it is tried only for functions that carry a top-level claim.
+func dropAuxiliary(rr *runResult, smtDir string, timeoutSec, seed int) {
+	for ri, r := range rr.results {
+		c := r.Fn.Contr
+		if c == nil {
+			continue
+		}
+		hasClaim := false
+		failing := map[string]bool{}
+		for _, o := range r.Obls {
+			if isTopLevelClaim(o.Name) {
+				hasClaim = true
+			}
+			if !o.Cover && o.Status != "unsat" {
+				if m := invOblRe.FindStringSubmatch(o.Name); m != nil {
+					failing[m[1]+","+m[2]] = true
+				}
+			}
+		}
+		if !hasClaim {
+			continue
+		}
+		var off []*Clause
+		for _, cl := range c.Clauses {
+			if cl.Loop == 0 || cl.Lit != 0 {
+				continue
+			}
+			switch cl.Kind {
+			case "invariant":
+				if failing[fmt.Sprintf("%d,%d", cl.Loop, cl.Ord)] {
+					off = append(off, cl)
+					continue
+				}
+				fallthrough
+			case "assume", "hint":
+				for _, e := range r.BindErrors {
+					if strings.HasPrefix(e, cl.Pos+" ("+cl.Kind+")") {
+						off = append(off, cl)
+						break
+					}
+				}
+			}
+		}
+		if len(off) == 0 {
+			continue
+		}
+		for _, cl := range off {
+			cl.Off = true
+		}
+		r2 := VerifyFunc(rr.world, rr.prog, r.Fn)
+		for _, o := range r2.Obls {
+			o.Props = c.Props
+		}
+		SolveAll(rr.world, r2.Obls, smtDir, timeoutSec, seed, 16)
+		ok := len(r2.BindErrors) == 0
+		for _, o := range r2.Obls {
+			if !o.Cover && o.Status != "unsat" {
+				ok = false
+			}
+		}
+		if !ok {
+			for _, cl := range off {
+				cl.Off = false
+			}
+			continue
+		}
+		for _, cl := range off {
+			r2.Notes = append(r2.Notes, fmt.Sprintf("auxiliary clause set aside (no longer binds or holds; the proof does not use it): loop %d %s %s", cl.Loop, cl.Kind, cl.Text))
+		}
+		// replace the first attempt
+		old := map[*Obligation]bool{}
+		for _, o := range r.Obls {
+			old[o] = true
+		}
+		var keep []*Obligation
+		for _, o := range rr.obls {
+			if !old[o] {
+				keep = append(keep, o)
+			}
+		}
+		rr.obls = append(keep, r2.Obls...)
+		var be []string
+		for _, e := range rr.bindErrs {
+			mine := false
+			for _, e1 := range r.BindErrors {
+				if e == c.Key+"#contract-binds: "+e1 {
+					mine = true
+				}
+			}
+			if !mine {
+				be = append(be, e)
+			}
+		}
+		rr.bindErrs = be
+		rr.results[ri] = r2
+	}
 }
 
 func cmdCheck(args []string) int {
@@ -524,6 +672,41 @@ func cmdBaseline(args []string) {
 	base := Baseline{Properties: map[string][]string{}}
 	groups := groupObligations(rr.obls)
 	bad := 0
+	// closureProps[f]: the properties whose check covers f (named in props, or reached through used contracts)
+	closureProps := map[string][]string{}
+	byKey := map[string]*FuncResult{}
+	allProps := map[string]bool{}
+	for _, r := range rr.results {
+		byKey[r.Fn.Key] = r
+		for _, p := range r.Fn.Contr.Props {
+			allProps[p] = true
+		}
+	}
+	for p := range allProps {
+		seen := map[string]bool{}
+		var stack []string
+		for _, r := range rr.results {
+			if contains(r.Fn.Contr.Props, p) {
+				stack = append(stack, r.Fn.Key)
+			}
+		}
+		for len(stack) > 0 {
+			k := stack[len(stack)-1]
+			stack = stack[:len(stack)-1]
+			if seen[k] {
+				continue
+			}
+			seen[k] = true
+			closureProps[k] = append(closureProps[k], p)
+			if r, ok := byKey[k]; ok {
+				for _, ck := range calleeKeys(r) {
+					if _, has := byKey[ck]; has && !seen[ck] {
+						stack = append(stack, ck)
+					}
+				}
+			}
+		}
+	}
 	for _, g := range groups {
 		if !g.ok {
 			fmt.Printf("not in baseline (not discharged): %s (%s)\n", g.name, statusSummary(g))
@@ -539,7 +722,7 @@ func cmdBaseline(args []string) {
 		if slow {
 			fmt.Printf("warning: slow obligation %s\n", g.name)
 		}
-		for _, p := range g.obls[0].Props {
+		for _, p := range closureProps[g.obls[0].Func] {
 			base.Properties[p] = append(base.Properties[p], g.name)
 		}
 	}
